@@ -85,14 +85,19 @@ def toInt32 (n : Nat) : Int :=
   let m := n % 4294967296
   if m < 2147483648 then (m : Int) else (m : Int) - 4294967296
 
+/-- optional sign in front of a number: (negative?, rest) -/
+def splitSign (s : Bytes) : Bool × Bytes :=
+  match s with
+  | 45 :: r => (true, r)
+  | 43 :: r => (false, r)
+  | r => (false, r)
+
 /-- `strtol(s, NULL, 10)` as glibc does it: leading `isspace`, optional sign, digits, clamped to the
     `long` range (64 bit).  Returns the mathematical value after clamping. -/
 def strtol10 (s : Bytes) : Int :=
   let s1 := s.dropWhile isSpace
-  let (neg, s2) := match s1 with
-    | 45 :: r => (true, r)
-    | 43 :: r => (false, r)
-    | r => (false, r)
+  let neg := (splitSign s1).1
+  let s2 := (splitSign s1).2
   let v := decVal (s2.takeWhile isDigit)
   if neg then (if v > 9223372036854775808 then -9223372036854775808 else -(v : Int))
   else (if v > 9223372036854775807 then 9223372036854775807 else (v : Int))
@@ -109,10 +114,8 @@ def atoiU16 (s : Bytes) : Nat := ((atoi s) % 65536).toNat
     negates modulo 2^64), clamped to `ULONG_MAX` on overflow, then truncated to 32 bits. -/
 def strtoulU32 (s : Bytes) : Nat :=
   let s1 := s.dropWhile isSpace
-  let (neg, s2) := match s1 with
-    | 45 :: r => (true, r)
-    | 43 :: r => (false, r)
-    | r => (false, r)
+  let neg := (splitSign s1).1
+  let s2 := (splitSign s1).2
   let v := decVal (s2.takeWhile isDigit)
   let v64 := if v > 18446744073709551615 then 18446744073709551615
              else if neg then (18446744073709551616 - v) % 18446744073709551616 else v
